@@ -1083,6 +1083,8 @@ class Engine:
             return tuple(v.items)
         if isinstance(v, (int, str, bool, type(None))):
             return v
+        if isinstance(v, Model) and type(v).__hash__ is not None:
+            return v
         raise Unsupported(f"dict key {v!r}")
 
     def e_Set(self, e, env):
@@ -1500,6 +1502,9 @@ class Engine:
         return wrap_bool(res)
 
     def is_(self, l, r):
+        if getattr(self, "int_is_eq", False) and isinstance(l, (int, SI)) and isinstance(r, (int, SI)) \
+                and not isinstance(l, bool) and not isinstance(r, bool):
+            return self.compare_eq(l, r)   # sympy singletons: `x is One` for sympified integers (A-SY1)
         if isinstance(l, Model):
             return l.m_is(self, r)
         if isinstance(r, Model):
